@@ -298,6 +298,16 @@ def run_case(ck, desc):
                 ck.count("ladders_checked")
             return mob > 0, {"mobile_values": mob, "k_first_last": [k[0], k[-1]]}
         if kind in ("reject-param", "reject-sum"):
+            if kind == "reject-param":
+                # the same inadmissible parameter set through the two-phase table helper (with a water
+                # saturation it would otherwise accept): rejected there as well
+                try:
+                    relative_permeabilities_twophase(params, min(max(params.S_wc, 0.0), 0.05))
+                except Exception as e:  # noqa: BLE001
+                    ck.count(f"rejections.twophase_helper.{type(e).__name__}")
+                else:
+                    ck.violation(kind, {"accepted": desc["params"], "which": desc.get("which"), "off": desc.get("off"), "through": "relative_permeabilities_twophase"}, desc)
+                EVENTS.clear()
             try:
                 relative_permeabilities(_records(desc["sats"], desc.get("order", 0)), params)
             except Exception as e:  # noqa: BLE001
